@@ -202,6 +202,9 @@ func c16BGV(c *Ctx, ns []int) {
 				c14Guard(c, "C16-harness-panic", "c16BGVRefresh", func() { c16BGVRefresh(c, set, n, lin, set.maxQ(), sigma, &fn, c.rng.Intn(3)) })
 			}
 		}
+		for _, n := range []int{1, 3} {
+			c14Guard(c, "C16-harness-panic", "c16BGVFlagMatrix", func() { c16BGVFlagMatrix(c, set, n) })
+		}
 		if c.Thorough() {
 			for i := range funcs {
 				for lout := 0; lout <= set.maxQ(); lout++ {
@@ -747,5 +750,152 @@ func c16BGVRefresh(c *Ctx, set c16BGVSet, n, lin, lout int, sigma float64, fn *c
 		[]string{"in_place", "fresh_with_metadata", "fresh_as_allocated"}[mode]), key, detail)
 	if detail == "" && mode != 0 {
 		c16BGVRefusals(out)
+	}
+}
+
+// ---------------------------------------------------------------------------------------------
+// masked transform over all (Decode, Encode) × input IsBatched
+
+// c16BGVFlagMatrix runs the n-party masked transform for every combination of transform.Decode,
+// transform.Encode (and transform = nil) and of the input's IsBatched flag (slot-encoded and
+// coefficient-encoded messages), with plaintext scales 1 and ≠ 1.  As documented the output carries the
+// MetaData of the input (scale, encoding flag, dimensions) and its plaintext polynomial of R_t is
+// Encode?(f(Decode?(m))) for the input's plaintext polynomial m; when nothing is transformed the message
+// decoded through the API with the returned metadata is the input message.
+func c16BGVFlagMatrix(c *Ctx, set c16BGVSet, n int) {
+	params := set.params
+	keys := c14GenKeys(set.c14Set, n)
+	flood := ring.DiscreteGaussian{Sigma: 3.2, Bound: 19.2}
+	ringT := set.bp.RingT()
+	lin := set.maxQ()
+	funcs := c16BGVFuncs(set)
+	type tfc struct {
+		name           string
+		isNil          bool
+		decode, encode bool
+		f              func([]uint64)
+	}
+	tfs := []tfc{{name: "nil", isNil: true}}
+	for _, d := range []bool{false, true} {
+		for _, e := range []bool{false, true} {
+			fn := funcs[c.rng.Intn(len(funcs))]
+			tfs = append(tfs, tfc{name: fmt.Sprintf("Decode=%t,Encode=%t,f=%s", d, e, strings.Split(fn.name, "_")[0]), decode: d, encode: e, f: fn.f})
+		}
+	}
+	crs := c16PRNG(c.rng.Bytes(32))
+	for _, batched := range []bool{true, false} {
+		for _, scale := range []uint64{1, 3 + c.rng.Below(set.t-3)} {
+			msg := make([]uint64, set.bp.MaxSlots())
+			for i := range msg {
+				msg[i] = c.rng.Below(set.t)
+			}
+			pt := bgv.NewPlaintext(set.bp, lin)
+			pt.Scale = rlwe.NewScaleModT(scale, set.t)
+			pt.IsBatched = batched
+			if err := set.enc.Encode(msg, pt); err != nil {
+				panic(err)
+			}
+			ct := bgv.NewCiphertext(set.bp, 1, lin)
+			if err := rlwe.NewEncryptor(set.bp, keys.ideal).Encrypt(pt, ct); err != nil {
+				panic(err)
+			}
+			mdIn := *ct.MetaData
+			// the input's plaintext polynomial of R_t
+			mT := ringT.NewPoly()
+			tmp := params.RingQ().NewPoly()
+			params.RingQ().INTT(pt.Value, tmp)
+			set.enc.RingQ2T(lin, true, tmp, mT)
+			m := c16TC(mT, set.t)
+			for _, t := range tfs {
+				lout := c.rng.Intn(set.maxQ() + 1)
+				var tf *mpbgv.MaskedTransformFunc
+				want := m
+				if !t.isNil {
+					tf = &mpbgv.MaskedTransformFunc{Decode: t.decode, Func: t.f, Encode: t.encode}
+					fn := c16BGVFunc{t.name, t.decode, t.encode, t.f, true}
+					want = fn.apply(set, m, ct.Scale)
+					for i := range want {
+						want[i] %= set.t
+					}
+				}
+				label := fmt.Sprintf("bgv set=%s N=%d lin=%d lout=%d scale=%d input_IsBatched=%t transform=%s", set.name, n, lin, lout, scale, batched, t.name)
+				detail := Try(func() string {
+					proto, err := mpbgv.NewMaskedTransformProtocol(set.bp, set.bp, flood)
+					if err != nil {
+						return "constructor_error"
+					}
+					crp := proto.SampleCRP(lout, crs)
+					var acc multiparty.RefreshShare
+					for i := 0; i < n; i++ {
+						p := proto
+						if i > 0 {
+							p = proto.ShallowCopy()
+						}
+						sh := p.AllocateShare(lin, lout)
+						if err := p.GenShare(keys.sk[i], keys.sk[i], ct, crp, tf, &sh); err != nil {
+							return "GenShare_error:" + strings.ReplaceAll(err.Error(), " ", "_")
+						}
+						if i == 0 {
+							acc = sh
+						} else if err := p.AggregateShares(acc, sh, &acc); err != nil {
+							return "AggregateShares_error:" + strings.ReplaceAll(err.Error(), " ", "_")
+						}
+					}
+					out := bgv.NewCiphertext(set.bp, 1, set.maxQ())
+					// the receiver arrives with the opposite flag and another scale: nothing of its metadata may survive
+					out.IsBatched = !batched
+					out.Scale = rlwe.NewScaleModT(2, set.t)
+					ctIn := ct.CopyNew()
+					if err := proto.Transform(ctIn, tf, crp, acc, out); err != nil {
+						return "Transform_error:" + strings.ReplaceAll(err.Error(), " ", "_")
+					}
+					if !ctIn.MetaData.Equal(&mdIn) || !ctIn.Equal(ct) {
+						return "Transform_modified_the_input_ciphertext"
+					}
+					if out.IsBatched != mdIn.IsBatched {
+						return fmt.Sprintf("output_IsBatched=%t_want_the_input's_%t", out.IsBatched, mdIn.IsBatched)
+					}
+					if out.LogDimensions != mdIn.LogDimensions {
+						return fmt.Sprintf("output_LogDimensions=%v_want_%v", out.LogDimensions, mdIn.LogDimensions)
+					}
+					if out.Scale.Cmp(mdIn.Scale) != 0 {
+						return "output_Scale_differs_from_the_input's"
+					}
+					if out.IsNTT != mdIn.IsNTT || out.IsMontgomery != mdIn.IsMontgomery {
+						return "output_IsNTT/IsMontgomery_differ_from_the_input's"
+					}
+					if out.Level() != lout {
+						return fmt.Sprintf("output_level=%d_want_%d", out.Level(), lout)
+					}
+					dec := rlwe.NewDecryptor(set.bp, keys.ideal).DecryptNew(out)
+					pq := params.RingQ().AtLevel(lout).NewPoly()
+					params.RingQ().AtLevel(lout).INTT(dec.Value, pq)
+					gotT := ringT.NewPoly()
+					set.enc.RingQ2T(lout, true, pq, gotT)
+					if !slices.Equal(c16TC(gotT, set.t), want) {
+						return "output_plaintext_polynomial_differs_from_Encode?(f(Decode?(m)))"
+					}
+					// through the API with the metadata as returned
+					have := make([]uint64, len(msg))
+					if err := set.enc.Decode(dec, have); err != nil {
+						return "decode_error_with_the_returned_metadata"
+					}
+					wantMsg := append([]uint64(nil), msg...)
+					switch {
+					case t.isNil:
+					case t.decode == t.encode && (t.decode == batched):
+						// f acts on the message vector itself
+						t.f(wantMsg)
+					default:
+						return ""
+					}
+					if !slices.Equal(have, wantMsg) {
+						return "message_decoded_with_the_returned_metadata_differs_from_f(message)"
+					}
+					return ""
+				})
+				c.Probe("transform_flag_matrix", label, "C16-bgv-transform-flags", detail)
+			}
+		}
 	}
 }
